@@ -134,7 +134,7 @@ pub fn run(args: &Args) {
     let thorough = args.thorough();
     let wd = gen_::Workdir::new("c14");
     let mut pkgs: Vec<(String, Package)> = vec![];
-    for i in 0..(if thorough { 6 } else { 3 }) {
+    for i in 0..(if thorough { 24 } else { 3 }) {
         let mut cfg = gen_::rand_cfg(&mut rng, 2, 120);
         if i == 1 { cfg.signer = Some("ed25519".into()); }
         if i == 2 { cfg.compression = Some(("none".into(), None)); }
@@ -144,7 +144,7 @@ pub fn run(args: &Args) {
     }
     for a in asset_paths() {
         let b = std::fs::read(&a).unwrap();
-        if b.len() < 9000 || (thorough && b.len() < 30000) {
+        if b.len() < 9000 || (thorough && b.len() < 300000) {
             pkgs.push((a.rsplit('/').next().unwrap().to_string(), Package::parse(&mut &b[..]).unwrap()));
         }
     }
@@ -174,6 +174,15 @@ pub fn run(args: &Args) {
                   Mode::Random(args.seed() + pi as u64), Mode::Random(args.seed() + 100 + pi as u64), Mode::Interrupts(1, 2), Mode::Interrupts(3, 3), Mode::Interrupts(4096, 5)] {
             run_write(&mut t, name, "package", &canon, m.clone(), false, &wp);
             run_write(&mut t, name, "metadata", &canon_meta, m, false, &wm);
+        }
+        if thorough {
+            for sd in 0..40u64 {
+                run_write(&mut t, name, "package", &canon, Mode::Random(args.seed() * 1000 + sd + 1000 * pi as u64), false, &wp);
+            }
+            for k in [4usize, 6, 8, 9, 11, 13, 17, 31, 64, 127, 509, 1024] {
+                run_write(&mut t, name, "package", &canon, Mode::Chunk(k), false, &wp);
+                run_write(&mut t, name, "package", &canon, Mode::Interrupts(k, 2), false, &wp);
+            }
         }
         // detailed per-call episodes, validated step by step by the trace specification
         if pi < 2 || thorough {
